@@ -38,7 +38,8 @@ DIMS = {
     "alpn": [None, [b"h2", b"http/1.1"], [b"http/1.1"], [b"spdy/3"]],
     "psk_modes": [None, ["psk_ke"], ["psk_dhe_ke"]],
 }
-SERVER_CREDS = ["rsa", "ecdsa", "rsapss", "rsa+req", "rsa+reqnone", "ecdsa+req", "anon", "rsa+resume", "rsa+chain", "rsa+psk", "rsa+psk2", "srp"]
+SERVER_CREDS = ["rsa", "ecdsa", "rsapss", "rsa+req", "rsa+reqnone", "ecdsa+req", "anon", "rsa+resume", "rsa+chain", "rsa+psk", "rsa+psk2", "srp",
+                "rsa+psk3"]
 
 
 def make_settings(choice):
@@ -318,6 +319,45 @@ def _run_pair(idx, cchoice, schoice, scred):
             # tries to read unknown identities as tickets) knows only the last one
             chs.pskConfigs = [(b"somebody-else", b"\x22" * 32, "sha256"), (b"sha384-psk", b"\x33" * 48, "sha384")] + list(chs.pskConfigs)
             shs.ticketKeys = [bytearray(b"\x07" * 32)]
+        skw_cache = None
+        ca = ""
+        use_psk = True
+    elif ca == "psk3":
+        # a ticket the server can decrypt but must skip (made under a SHA-256 suite by a client that authenticated with
+        # a certificate; now only a SHA-384 suite is offered) next to an external SHA-384 PSK that it selects: nothing of
+        # the skipped ticket's session - the client's identity above all - may show up in the server's view
+        from tlslite.api import HandshakeSettings
+        for ch_ in (cchoice, schoice):
+            if any(ch_.get(d_) is not None for d_ in ("vers", "cipherNames", "macNames", "psk_modes", "keyExchangeNames")):
+                return {"skip": "stale-ticket variant runs with unrestricted version / cipher settings only"}
+        tkey = bytearray(b"\x09" * 32)
+        d = HandshakeSettings()
+        d.minVersion = d.maxVersion = (3, 4)
+        d.cipherNames = ["aes128gcm"]
+        d.ticketKeys = [tkey]
+        d0 = HandshakeSettings()
+        d0.minVersion = d0.maxVersion = (3, 4)
+        d0.cipherNames = ["aes128gcm"]
+        p0 = Pair("c03-%d-prior" % idx)
+        cch0, ckey0 = cred("c_rsa")
+        st0, co0, so0 = p0.handshake(ckw=dict(settings=d0, serverName="host.example", certChain=cch0, privateKey=ckey0),
+                                     skw=dict(certChain=ch, privateKey=key, settings=d, reqCert=True))
+        if not (co0.ok and so0.ok):
+            return {"skip": "prior connection did not complete"}
+        p0.write("s", b"x")
+        p0.read("c", 10, 1)
+        p0.close("c")
+        p0.read("s", 10, 0)
+        if not p0.c.session.tickets:
+            return {"skip": "prior connection gave no ticket"}
+        ckw["session"] = p0.c.session
+        for hs in (chs, shs):
+            hs.minVersion = hs.maxVersion = (3, 4)
+            hs.cipherNames = ["aes256gcm"]
+            hs.pskConfigs = [(b"sha384-psk", b"\x33" * 48, "sha384")]
+        shs.ticketKeys = [tkey]
+        cabs = abstract(chs, calpn)
+        sabs = abstract(shs, salpn)
         skw_cache = None
         ca = ""
         use_psk = True
